@@ -1,3 +1,4 @@
+import TinysetModel.Proofs.ContainsSrc
 import TinysetModel.Proofs.Loops
 import TinysetModel.Proofs.ProgramTotal
 import TinysetModel.Proofs.ProgramRefine
@@ -261,6 +262,16 @@ theorem primitives_are_the_source_u32 (k : Nat) (a : Tbl) (off : Nat) (hn : a.si
     Gen.p_insert_32 k a off = convErr (pinsert k a off) ∧
     Gen.p_remove_32 k a off = .ok (premove k a off) :=
   ⟨p_lookfor_32_eq k a off (by omega), p_insert_32_eq k a off (by omega), p_remove_32_eq k a off hn⟩
+
+/-! ### `contains` of the model is `contains` of the current source, arm by arm -/
+
+/-- as for SetU64 (tables below 2^32 buckets) -/
+theorem contains_is_the_source_u32 (e sz cap : Nat) (a : Tbl) (he : e < 2 ^ 32) (hn : a.size < 2 ^ 32) :
+    (cap = a.size → Gen.contains_dense_32 e a = contains cfg32 (.heap sz cap 32 a) e) ∧
+    (∀ bits, 0 < bits ∧ bits < 32 → Gen.contains_heap_32 e bits a = contains cfg32 (.heap sz cap bits a) e) ∧
+    (∀ bits, bits = 0 ∨ bits > 32 → Gen.contains_big_32 e bits a = contains cfg32 (.heap sz cap bits a) e) :=
+  ⟨contains_dense_32_eq e sz cap a, fun bits hb => contains_heap_32_eq e sz cap bits a he hb hn,
+   fun bits hb => contains_big_32_eq e sz cap bits a hb hn⟩
 
 end C02
 
